@@ -166,6 +166,25 @@ func (r *R) Evaluations() int {
 	return r.evaluations
 }
 
+// Checkpoint writes a summary of what was observed so far and resets the
+// counters; used right before a step that may legitimately end the process.
+func (r *R) Checkpoint() {
+	r.mu.Lock()
+	defer r.mu.Unlock()
+	d := make([]string, 0, len(r.distinct))
+	for k := range r.distinct {
+		d = append(d, k)
+	}
+	r.emit(map[string]interface{}{"t": "summary", "evaluations": r.evaluations, "distinct": d, "obs": r.obs, "extra": r.extra, "checkpoint": true})
+	r.evaluations = 0
+	r.distinct = map[string]struct{}{}
+	r.obs = map[string]int{}
+	r.extra = map[string]interface{}{}
+	if r.f != os.Stdout {
+		r.f.Sync()
+	}
+}
+
 // Close writes the summary record. Without it the driver treats the child as dead.
 func (r *R) Close() {
 	r.mu.Lock()
